@@ -278,6 +278,8 @@ ScopeOK(W, o) ==
   /\ \A e \in Rng(o.words) \cup Rng(o.senses) \cup Rng(o.synsets) : e[1] \in W.S
   \* wn.taxonomy.roots / leaves of the wordnet, per part of speech (TX rows)
   /\ \A t \in Rng(o.TX) : \A e \in Rng(t[2][2]) \cup Rng(t[3][2]) : e[1] \in AllIds(W)
+  \* searches by form, exact or through the normalised form (FQ rows)
+  /\ \A t \in Rng(o.FQ) : \A e \in Rng(t[2][2]) \cup Rng(t[3][2]) \cup Rng(t[4][2]) : e[1] \in AllIds(W)
   /\ \A t \in Rng(o.W) : AllIn(W, Ent(t), t[3][2]) /\ AllIn(W, Ent(t), t[4][2]) /\ AllIn(W, Ent(t), t[5][2])
   /\ \A t \in Rng(o.S) :
        /\ t[3][1] = "ok" => InSel(W, Ent(t), <<t[3][2], t[3][3]>>)
